@@ -25,7 +25,9 @@ RULE = ('every string up to length L over the 12-symbol alphabet (L=4 quick / 5 
         'soups over every default-database name, parsed tolerantly under a token-reader step budget and compared '
         'with the strict tree when strict parsing succeeds; generated well-formed documents D (default and custom '
         'contexts) x 8 stray closers x garbage tails, and a fixed closed document followed by every enumerated '
-        'string, checked with the prefix rule. Non-trivial = input on which strict parsing fails (tolerant recovery '
+        'string, checked with the prefix rule; generated documents truncated at token boundaries and followed by 9 kinds '
+        'of broken tail (lone backslash, stray closers, unfinished \\begin ...), checked for totality and for retention '
+        'of every text piece written before the cut. Non-trivial = input on which strict parsing fails (tolerant recovery '
         'exercised) or a D+closer+garbage case; distinct = distinct input.')
 EXHAUSTIVE = {'quick': False, 'thorough': False}
 ASSUMPTIONS = ['step budget: A*(len+1)+B token-reader calls with A=400, B=4000 (>= 20x the measured maximum on the '
@@ -42,17 +44,22 @@ def plan(tier, seed):
         sh += [{'kind': 'soup', 'count': 5000, 'name': 'soup%d' % k} for k in range(4)]
         sh += [{'kind': 'prefix', 'vocab': 'default', 'count': 250, 'depth': 4, 'name': 'pfd%d' % k} for k in range(3)]
         sh += [{'kind': 'prefix', 'vocab': 'custom', 'count': 250, 'depth': 4, 'name': 'pfc%d' % k, 'cb': 20 * k} for k in range(3)]
+        sh += [{'kind': 'truncate', 'vocab': v, 'count': 400, 'cuts': 8, 'depth': 4, 'name': 'trunc%s%d' % (v[0], k), 'cb': 77 * k}
+               for k in range(2) for v in ('default', 'custom')]
         return sh
     sh = [{'kind': 'enum', 'L': 5, 'k': k, 'n': 16, 'name': 'enum%d' % k} for k in range(16)]
     sh += [{'kind': 'soup', 'count': 30000, 'name': 'soup%d' % k} for k in range(12)]
     sh += [{'kind': 'prefix', 'vocab': 'default', 'count': 2500, 'depth': 4 + k % 3, 'name': 'pfd%d' % k} for k in range(8)]
     sh += [{'kind': 'prefix', 'vocab': 'custom', 'count': 2500, 'depth': 4 + k % 3, 'name': 'pfc%d' % k, 'cb': 100 * k} for k in range(8)]
+    sh += [{'kind': 'truncate', 'vocab': v, 'count': 3000, 'cuts': 1000, 'depth': 4 + k % 3, 'name': 'trunc%s%d' % (v[0], k), 'cb': 177 * k}
+           for k in range(6) for v in ('default', 'custom')]
     return sh
 
 
 def floors(tier):
     return {'evaluations': 40000, 'distinct_nontrivial': 15000, 'tolerant_parses': 40000,
-            'strict_equal_compared': 10000, 'prefix_rule_checked': 8000, 'recovery_exercised': 15000}
+            'strict_equal_compared': 10000, 'prefix_rule_checked': 8000, 'recovery_exercised': 15000,
+            'text_retention_checked': 20000, 'histkeys:truncation_tail': 9}
 
 
 def setup(rec):
@@ -128,6 +135,20 @@ def check_case(case, rec):
     else:
         rec.monitor('recovery_exercised')
         rec.nontrivial(s)
+    if 'kept_text' in case:
+        # text written before the cut must still be there: each plain-text piece of the valid prefix is
+        # carried by chars nodes of the tolerant result at its own position
+        rec.monitor('text_retention_checked')
+        cover = {}
+        for n in canon.walk(nl):
+            if canon.kind(n) == 'chars' and isinstance(n.pos, int):
+                for k, ch in enumerate(n.chars):
+                    cover[n.pos + k] = ch
+        for a, b in case['kept_text']:
+            if any(cover.get(p) != s[p] for p in range(a, b)):
+                rec.violation(case, 'text %r written at %d, before the first error at %d, is missing from the tolerant result '
+                              '| input %r | tree %s' % (s[a:b], a, case['cut'], s, canon.short(nl)[:400]), mech='text-lost')
+                return
     if 'dlen' in case:
         # prefix rule
         D = s[:case['dlen']]
@@ -160,8 +181,8 @@ def check_case(case, rec):
 
 def shrink(v):
     case = dict(v['case'])
-    if 'dlen' in case:
-        return v
+    if 'dlen' in case or 'kept_text' in case:
+        return v        # positions in the case refer to this very input
 
     def fails(x):
         r = Recorder()
@@ -189,6 +210,22 @@ def run_shard(desc, rec):
             if i % 500 == 0:
                 rec.sample(s)
             check_case({'s': s}, rec)
+    elif kind == 'truncate':
+        from ..gen import doc as D
+        tails = ['', '\\', '}', '$', '\\begin', '{', ']', '\\end{x}', '%']
+        src = work.DocSource(rng, desc['vocab'], depth=desc['depth'], cover_base=desc.get('cb', 0))
+        for i in range(desc['count']):
+            s, ast, bounds, vocab, db, cdesc = src.next()
+            tsp = [(a, b) for (a, b, m, d) in D.LAST_RENDER['tspans']]
+            cuts = bounds if len(bounds) <= desc['cuts'] else rng.sample(bounds, desc['cuts'])
+            for c in cuts:
+                for tail in rng.sample(tails, 3):
+                    rec.case()
+                    rec.hist('truncation_tail', tail or '(none)')
+                    case = {'s': s[:c] + tail, 'ctx': cdesc, 'cut': c, 'kept_text': [[a, b] for (a, b) in tsp if b <= c]}
+                    if (i * 13 + c) % 2999 == 0:
+                        rec.sample({'document': s, 'cut': c, 'tail': tail})
+                    check_case(case, rec)
     else:
         src = work.DocSource(rng, desc['vocab'], depth=desc['depth'], cover_base=desc.get('cb', 0))
         for i in range(desc['count']):
